@@ -215,6 +215,36 @@ def summarize(stderr):
 
 
 # ----------------------------------------------------------------------------------------------
+def run_ct_valgrind(tier):
+    """C06: builds harness/ctime.c (frozen copy of the maintainers' secret-argument list, one TU with the library of
+    the current working tree) in several configurations and runs it under valgrind-memcheck with the secrets marked
+    undefined. Returns (runs, failures) where a failure carries the valgrind report."""
+    os.makedirs(BUILD, exist_ok=True)
+    combos = [('default', ['-O2']), ('int64', ['-O2']), ('int128struct', ['-O2'])]
+    if tier == 'thorough': combos += [('default', ['-O1']), ('default', ['-O3']), ('asm', ['-O2']), ('int64', ['-O3']), ('int128struct', ['-O1'])]
+    runs, failures = [], []
+    def one(combo):
+        conf, opt = combo
+        exe = os.path.join(BUILD, 'ctime_%s_%s' % (conf, opt[0].strip('-')))
+        flags = [f for f in CONFIGS[conf] if not f.startswith('-O')]
+        r = run(['gcc', '-g', '-std=gnu99', '-w', '-DSECP256K1_ZKP_VERIF', '-I' + REPO, '-I' + os.path.join(REPO, 'src')] + flags + opt +
+                [os.path.join(ROOT, 'harness', 'ctime.c'), '-o', exe])
+        if r.returncode != 0:
+            return [(conf, opt[0], -1, 'build failed: ' + r.stdout[-1500:])]
+        res = []
+        for variation in (0, 1, 2):
+            p = subprocess.run(['valgrind', '-q', '--error-exitcode=97', exe, str(variation)], stdout=subprocess.PIPE, stderr=subprocess.PIPE, text=True)
+            res.append((conf, opt[0], variation, '' if p.returncode == 0 else 'rc=%d\n%s' % (p.returncode, p.stderr[-3000:])))
+        return res
+    with concurrent.futures.ThreadPoolExecutor(min(NPROC, len(combos))) as ex:
+        for res in ex.map(one, combos):
+            for conf, opt, variation, err in res:
+                runs.append({'config': conf, 'opt': opt, 'context_variation': variation, 'ok': err == ''})
+                if err: failures.append({'config': conf, 'opt': opt, 'context_variation': variation, 'report': err})
+    return runs, failures
+
+
+# ----------------------------------------------------------------------------------------------
 class Ctx:
     """passed to generators"""
     def __init__(self, tier, seed):
@@ -372,6 +402,15 @@ def main():
         disagreements += nd
         per_config[conf] = {'cases': len(lines), 'disagreements': nd}
 
+    ct_runs = None
+    if cfg.get('ct_valgrind'):
+        t1 = time.time()
+        ct_runs, ct_fail = run_ct_valgrind(tier)
+        log('valgrind constant-time runs: %d, failures %d, %.1fs' % (len(ct_runs), len(ct_fail), time.time() - t1))
+        for f in ct_fail[:5]:
+            p = write_replay(pid, seed, len(violations), {'kind': 'valgrind-secret-dependent-control-flow', **f,
+                             'replay': 'build harness/ctime.c in this configuration and run `valgrind ./ctime %d`' % max(f['context_variation'], 0)})
+            violations.append((p, ''))
     for l in known_hit:
         print('KNOWN-FINDING: property=%s %s' % (pid, known_lines[l].get('what', l[:80])))
 
@@ -408,6 +447,7 @@ def main():
             'configs': per_config,
             'families': {k: {'cases': v['cases'], 'classes': len(v['classes']), 'result_histogram': dict(sorted(v['outs'].items(), key=lambda kv: -kv[1])[:6])} for k, v in hist.items()},
             'disagreements': disagreements,
+            'valgrind_ct_runs': ct_runs,
             'notes': notes,
         },
         'assumptions': cfg.get('assumptions', []),
